@@ -224,16 +224,22 @@ Error BaseAssembler::embed_const_pool(const Label& label, const ConstPool& pool)
     return report_error(make_error(Error::kInvalidLabel));
   }
 
+  size_t size = pool.size();
+
+  // Reserve the space of the padding and of the data first - nothing can fail once the label is bound.
+  {
+    CodeWriter reserve(this);
+    ASMJIT_PROPAGATE(reserve.ensure_space(this, pool.alignment() + size));
+  }
+
   ASMJIT_PROPAGATE(align(AlignMode::kData, uint32_t(pool.alignment())));
   ASMJIT_PROPAGATE(bind(label));
 
-  size_t size = pool.size();
   if (!size) {
     return Error::kOk;
   }
 
   CodeWriter writer(this);
-  ASMJIT_PROPAGATE(writer.ensure_space(this, size));
 
 #ifndef ASMJIT_NO_LOGGING
   uint8_t* data = writer.cursor();
